@@ -61,6 +61,14 @@ def render_structs(k, it: Item, meta, cfg, strum_path="strum"):
             let mut out: Vec<String> = Vec::new();
             for tok in args {
                 if tok.starts_with('c') { let j: usize = tok[1..].parse().unwrap(); let cl = its[j].clone(); its.push(cl); continue; }
+                if tok.starts_with('F') {
+                    // F<a>><b>: its[b].clone_from(&its[a]) — afterwards b continues exactly where a is
+                    let gt = tok.find('>').unwrap();
+                    let a: usize = tok[1..gt].parse().unwrap(); let b: usize = tok[gt + 1..].parse().unwrap();
+                    let src = its[a].clone();
+                    Clone::clone_from(&mut its[b], &src);
+                    continue;
+                }
                 let ci = tok.find(':').unwrap();
                 let slot: usize = tok[..ci].parse().unwrap();
                 let op = &tok[ci + 1..];
